@@ -292,9 +292,25 @@ RESTART:
 		if !value.IsValid() {
 			left.errorf("identifier %q is not available in the current scope", fields[lef])
 		}
+		if !value.CanSet() {
+			left.errorf("field %q can't be assigned to (it is unexported or not addressable)", fields[lef])
+		}
+		if !right.IsValid() || !right.Type().AssignableTo(value.Type()) {
+			left.errorf("can't assign a value of type %s to field %q of type %s", getTypeString(right), fields[lef], value.Type())
+		}
 		value.Set(right)
 	case reflect.Map:
-		value.SetMapIndex(reflect.ValueOf(&fields[lef]).Elem(), right)
+		key := reflect.ValueOf(&fields[lef]).Elem()
+		if value.IsNil() {
+			left.errorf("can't assign to entry %q of a nil map", fields[lef])
+		}
+		if !key.Type().AssignableTo(value.Type().Key()) {
+			left.errorf("can't use %q as a key of %s", fields[lef], value.Type())
+		}
+		if right.IsValid() && !right.Type().AssignableTo(value.Type().Elem()) {
+			left.errorf("can't assign a value of type %s to an entry of %s", getTypeString(right), value.Type())
+		}
+		value.SetMapIndex(key, right)
 	}
 }
 
